@@ -27,6 +27,8 @@ class Profile:
         self.allow_no_time = True
         self.min_ops, self.max_ops = 5, 25
         self.probe_every = 1  # probe after every n-th mutating op
+        self.max_rows = MAX_ROWS
+        self.max_time_probes = 10_000
 
 
 def _pick(rng, weights):
@@ -68,7 +70,7 @@ def targeted_query(rng, model, opts):
 def gen_write_op(rng, model, prof):
     w = dict(prof.w)
     n = len(model.points)
-    if n >= MAX_ROWS:
+    if n >= prof.max_rows:
         w["insert"] = 0
         w["insert_multiple"] = 0
         if w.get("remove", 0) > 0:
@@ -90,7 +92,7 @@ def gen_write_op(rng, model, prof):
         if rng.random() < 0.3 and not via_h:
             op["compact"] = True
     elif kind == "insert_multiple":
-        k = min(rng.choice([0, 1, 2, 3]), MAX_ROWS - n)
+        k = max(0, min(rng.choice([0, 1, 2, 3]), prof.max_rows - n))
         op["ps"] = [gen.gen_point(rng, prof.meas, prof.allow_no_time, extra_meas=prof.extra_meas, extra_tag_vals=prof.extra_tag_vals) for _ in range(k)]
         if not via_h and rng.random() < 0.15:
             op["m"] = rng.choice(names)
@@ -117,7 +119,9 @@ def query_probes(rng, model, prof, via_choices=("db",)):
     asts = []
     if prof.time_probes:
         tp = gen.time_probe_queries(model.points)
-        # all six comparisons at every stored instant and its neighbours
+        # all six comparisons at every stored instant and its neighbours (sampled for big databases)
+        if len(tp) > prof.max_time_probes:
+            tp = rng.sample(tp, prof.max_time_probes)
         asts.extend(tp)
     for _ in range(prof.n_random_probes):
         asts.append(targeted_query(rng, model, prof.query_opts))
@@ -185,7 +189,8 @@ class HistoryRunner:
         try:
             n_ops = rng.randint(prof.min_ops, prof.max_ops)
             # seed rows
-            for _ in range(rng.randint(0, 5)):
+            n_seed = rng.randint(0, 5) if prof.max_rows <= MAX_ROWS else rng.randint(prof.max_rows // 2, prof.max_rows - 5)
+            for _ in range(n_seed):
                 op = {"op": "insert", "p": gen.gen_point(rng, prof.meas, False, extra_meas=prof.extra_meas, extra_tag_vals=prof.extra_tag_vals)}
                 self._write(s, op)
             for step in range(n_ops):
@@ -197,6 +202,8 @@ class HistoryRunner:
                 if step % prof.probe_every == 0:
                     self._probe(s)
             res.count("histories")
+            if prof.max_rows > MAX_ROWS:
+                res.count("histories_big")
             return s
         finally:
             s.close()
